@@ -122,6 +122,44 @@ namespace detail {
         return jsonpointer::basic_json_pointer<char_type>(std::move(tokens));
     }
 
+    // RFC 6902, section 4.6: objects are equal if they contain the same members, whatever the member order
+    template <typename Json>
+    bool equal_values(const Json& lhs, const Json& rhs)
+    {
+        if (lhs.is_object() && rhs.is_object())
+        {
+            if (lhs.size() != rhs.size())
+            {
+                return false;
+            }
+            for (const auto& member : lhs.object_range())
+            {
+                auto it = rhs.find(member.key());
+                if (it == rhs.object_range().end() || !equal_values(member.value(), (*it).value()))
+                {
+                    return false;
+                }
+            }
+            return true;
+        }
+        if (lhs.is_array() && rhs.is_array())
+        {
+            if (lhs.size() != rhs.size())
+            {
+                return false;
+            }
+            for (std::size_t i = 0; i < lhs.size(); ++i)
+            {
+                if (!equal_values(lhs[i], rhs[i]))
+                {
+                    return false;
+                }
+            }
+            return true;
+        }
+        return lhs == rhs;
+    }
+
     enum class op_type {add,remove,replace};
     enum class state_type {begin,abort,commit};
 
@@ -363,7 +401,7 @@ void apply_patch(Json& target, const Json& patch, std::error_code& ec)
                 unwinder.state =jsoncons::jsonpatch::detail::state_type::abort;
                 return;
             }
-            if (val != it_value->value())
+            if (!detail::equal_values(val, it_value->value()))
             {
                 ec = jsonpatch_errc::test_failed;
                 unwinder.state =jsoncons::jsonpatch::detail::state_type::abort;
